@@ -54,11 +54,13 @@ LEVEL = 'exploration'
 RULE = ('generated sample sets: full grids (shuffled, repeated), full grid '
     '+ duplicates with conflicting values, sparse random subsets with '
     'replacement (unobserved indices, gaps and offsets in the index values, '
-    'a mode of size 1), d=2..6, observed mode sizes 1..6, r=2..8 (12 '
-    'thorough), orders 1 and 2, noise in {0, 1e-10, 1e-3}, seed = auditing '
+    'a mode of size 1), d=2..6 (order 2: 2..5), observed mode sizes 1..6 (8 '
+    'thorough), r=2..8 (12 thorough), orders 1 and 2, noise in {0, 1e-10, '
+    '1e-3, 0.5}, up to 3000 (6000) samples, seed = auditing '
     'Generator / int / None, values: normal, integers, constants, zero, '
-    'scaled 1e-6..1e6, shifted (cancellation), additive functions, additive '
-    '+ low-rank pair interactions; functional variant: random / few / '
+    'scaled 1e-6..1e6 (order 2: 1e-2..1e3), shifted (cancellation), additive '
+    'functions, additive + low-rank pair interactions (also of relative size '
+    '1e-5..1e-11); functional variant: random / few / '
     'duplicated / boundary points in scalar and per-dimension boxes, n=2..8 '
     '(12 thorough), lamb in {0, 1e-7, 1e-3, 1, 10}, e in {None, 1e-8, 1e-4, '
     '1e-2}. non-trivial = non-constant data, some mode size >= 2 and the '
